@@ -79,6 +79,7 @@ pub struct GeneratorState<'a> {
     protected: bool,
     carry_propagation_error: bool,
     saved_y: bool,
+    flags_function: Option<String>,
     sub_output: Option<ExprType>,
 }
 
